@@ -48,7 +48,7 @@ def _diff(a, b, parent="Module", field="body") -> Optional[dict]:
                             added += vb[j1:j2]
                     return {"old": "[" + ",".join(type(x).__name__ for x in removed) + "]",
                             "new": "[" + ",".join(type(x).__name__ for x in added) + "]",
-                            "parent": type(a).__name__, "field": f,
+                            "parent": type(a).__name__, "field": f, "_old": removed, "_new": added,
                             "old_src": " | ".join(_src(x) for x in removed)[:240],
                             "new_src": " | ".join(_src(x) for x in added)[:240]}
             else:
@@ -58,7 +58,7 @@ def _diff(a, b, parent="Module", field="body") -> Optional[dict]:
         return None
     if a != b or type(a) is not type(b):
         return {"old": type(a).__name__, "new": type(b).__name__, "parent": parent, "field": field,
-                "old_src": _src(a), "new_src": _src(b)}
+                "old_src": _src(a), "new_src": _src(b), "_old": a, "_new": b}
     return None
 
 
@@ -78,12 +78,16 @@ def shape(before: str, after: str) -> dict:
     d = _diff(ta, tb)
     if not d:
         return {"old": "=", "new": "=", "parent": "Module", "field": "body", "old_src": "", "new_src": "", "features": []}
-    d["features"] = _features(d.pop("_old", None), d.pop("_new", None))
+    d["features"] = _features(d.pop("_old", None), d.pop("_new", None), ta, tb)
     return d
 
 
-def _features(old, new) -> List[str]:
-    """Facts about the rewritten node that known-finding classes may require."""
+def _names_loaded(tree) -> set:
+    return {n.id for n in ast.walk(tree) if isinstance(n, ast.Name) and isinstance(n.ctx, ast.Load)}
+
+
+def _features(old, new, ta=None, tb=None) -> List[str]:
+    """Facts about the rewritten node(s) that known-finding classes may require."""
     out = []
     if isinstance(old, ast.BoolOp):
         if any(isinstance(v, ast.Constant) for b in ast.walk(old) if isinstance(b, ast.BoolOp) for v in b.values):
@@ -92,6 +96,48 @@ def _features(old, new) -> List[str]:
             out.append("boolop-with-call")
     if isinstance(new, ast.Constant):
         out.append(f"new-constant-{type(new.value).__name__}")
+    # sum(...) over a range / comprehension with symbolic bounds replaced by a closed form
+    if isinstance(old, ast.Call) and isinstance(old.func, ast.Name) and old.func.id == "sum" and not isinstance(new, ast.Call):
+        targets = {t.id for c in ast.walk(old) if isinstance(c, ast.comprehension) for t in ast.walk(c.target) if isinstance(t, ast.Name)}
+        symbolic = {n.id for n in ast.walk(old) if isinstance(n, ast.Name)} - {"sum", "range"} - targets
+        out.append("sum-closed-form-symbolic" if symbolic else "sum-closed-form-constant")
+    # identifier rename that leaves other occurrences of the old identifier behind
+    if isinstance(old, str) and isinstance(new, str) and old.isidentifier() and new.isidentifier() and tb is not None:
+        left = {n.id for n in ast.walk(tb) if isinstance(n, ast.Name)} | \
+               {n.name for n in ast.walk(tb) if isinstance(n, (ast.FunctionDef, ast.ClassDef, ast.AsyncFunctionDef))} | \
+               {n.attr for n in ast.walk(tb) if isinstance(n, ast.Attribute)}
+        pairs = {(old, new)}
+        if ta is not None:
+            wa, wb = list(ast.walk(ta)), list(ast.walk(tb))
+            if len(wa) == len(wb) and all(type(x) is type(y) for x, y in zip(wa, wb)):
+                for x, y in zip(wa, wb):
+                    for f in ("id", "name", "arg", "attr"):
+                        vx, vy = getattr(x, f, None), getattr(y, f, None)
+                        if isinstance(vx, str) and isinstance(vy, str) and vx != vy:
+                            pairs.add((vx, vy))
+        if any(o in left for o, _ in pairs):
+            out.append("rename-leaves-old-identifier")
+        else:
+            out.append("rename-complete")
+    # an assignment turned into a bare expression (or removed) although its target is still read
+    if isinstance(old, ast.Assign) and not isinstance(new, ast.Assign) and tb is not None:
+        names = {t.id for t in old.targets if isinstance(t, ast.Name)}
+        if names & _names_loaded(tb):
+            out.append("removed-assignment-target-still-read")
+    # an unused class is deleted although its body runs calls when the class statement is executed
+    if isinstance(old, list) and any(isinstance(n, ast.ClassDef) and any(
+            isinstance(c, ast.Call) for st in n.body if not isinstance(st, (ast.FunctionDef, ast.AsyncFunctionDef, ast.ClassDef))
+            for c in ast.walk(st)) for n in old):
+        out.append("removed-class-runs-calls-in-body")
+    # statements moved out of a class while the class still refers to them through self / cls
+    if isinstance(old, list) and isinstance(new, list):
+        added_defs = {n.name.lstrip("_") for n in new if isinstance(n, (ast.FunctionDef, ast.AsyncFunctionDef))}
+        for cls in [n for n in new if isinstance(n, ast.ClassDef)]:
+            for a in ast.walk(cls):
+                if isinstance(a, ast.Attribute) and isinstance(a.value, ast.Name) and a.value.id in ("self", "cls", cls.name) \
+                        and a.attr.lstrip("_") in added_defs:
+                    if "moved-method-still-referenced-through-class" not in out:
+                        out.append("moved-method-still-referenced-through-class")
     return out
 
 
@@ -108,6 +154,8 @@ def first_breaking_stage(events: Sequence[dict], projections: Dict[str, Any], ba
 def matches_signature(entry: dict, stage: str, sh: dict, case_text: str = "") -> bool:
     """Does a known-finding entry of class 'trace-signature' cover this failure?"""
     cls = entry.get("class", {})
+    if isinstance(cls, list):
+        return any(matches_signature(dict(entry, **{"class": c}), stage, sh, case_text) for c in cls)
     if cls.get("kind") != "trace-signature":
         return False
     if entry.get("stage_regex"):
